@@ -31,6 +31,7 @@ type Knobs struct {
 	RootBool   bool
 	ConstHeavy bool // prefer literals/constants (folding workloads)
 	Budget     int  // node budget of one program (0 = default)
+	WideOps    bool // n-ary operators with up to 24 operands now and then
 }
 
 func DrawKnobs(r *Rng) Knobs {
@@ -55,6 +56,7 @@ func DrawKnobs(r *Rng) Knobs {
 		Stateless: []float64{0, 0.5}[r.Intn(2)],
 		NoListEq:  true,
 		RootBool:  r.P(0.7),
+		WideOps:   r.P(0.1),
 	}
 	if r.P(0.1) { // occasionally a deep, narrow or wide, shallow program
 		k.MaxDepth, k.MaxFan = 8, 2
@@ -416,6 +418,9 @@ func (g *Gen) fan(min int) int {
 	hi := g.K.MaxFan
 	if hi < min {
 		hi = min
+	}
+	if g.K.WideOps && g.R.P(0.15) && g.left > 40 {
+		return g.R.Range(7, 24) // occasionally an operator with many operands
 	}
 	return g.R.Range(min, hi)
 }
